@@ -483,31 +483,36 @@ Proof.
     destruct Hsinv. apply rel_intro; assumption. }
   unfold sstep. rewrite <- Hrun, Hr. cbn [negb].
   destruct Hsinv as [Hinv Hstop].
-  destruct o as [|k|k|k v| | |]; cbn [expand run] in H; unfold step in H; rewrite Hr in H; cbn [negb] in H.
-  - (* Connect *)
+  assert (Hconnect : forall s' outs, run s [Accept true] = Some (s', outs) ->
+            rel m s' {| served := (if (capacity m <=? length (served ss))%nat then tl (served ss) else served ss) ++ [accepted ss];
+                        accepted := accepted ss + 1; up := true; value := value ss |}).
+  { clear H s' outs. intros s' outs H. cbn [run] in H. unfold step in H. rewrite Hr in H. cbn [negb] in H.
     destruct (add (trk s)) as [[[t' id] ev]|] eqn:Hadd; [|discriminate]. inversion H; subst. clear H.
     assert (Hid : next_id (trk s) <> u128_max).
-    { intros E. unfold add, get_next_id in Hadd.
+      { intros E. unfold add, get_next_id in Hadd.
       destruct (if (max_sessions (trk s) <=? length (sessions (trk s)))%nat then _ else _) as [x e0] in Hadd.
       cbn [next_id] in Hadd. rewrite E, N.eqb_refl in Hadd. discriminate. }
     destruct (add_inv _ _ _ _ Hinv Hadd) as (Hi' & _ & _ & Hm').
     destruct (add_spec _ Hinv Hid) as (kept & ev' & Heq & Hc). rewrite Heq in Hadd. inversion Hadd; subst. clear Hadd.
     assert (Hlen : length (served ss) = length (sessions (trk s))) by (rewrite <- Hids; apply map_length).
     assert (Hk : all_alive kept /\ ids kept = (if (capacity m <=? length (served ss))%nat then tl (served ss) else served ss)).
-    { unfold capacity. rewrite Hlen, <- Hmax. destruct Hc as [(Hl & -> & _)|(Hl & v & a & E & _)].
+      { unfold capacity. rewrite Hlen, <- Hmax. destruct Hc as [(Hl & -> & _)|(Hl & v & a & E & _)].
       - destruct (Nat.leb_spec (max_sessions (trk s)) (length (sessions (trk s)))); [lia|]. auto.
       - destruct (Nat.leb_spec (max_sessions (trk s)) (length (sessions (trk s)))); [|lia].
         rewrite E in Hal, Hids. split; [now inversion Hal|]. rewrite <- Hids. reflexivity. }
     destruct Hk as [Hka Hki].
     apply rel_intro; cbn [trk running store max_sessions next_id sessions served accepted up value].
-    + exact Hi'.
-    + discriminate.
-    + exact Hmax.
-    + apply Forall_app. split; [exact Hka|repeat constructor].
-    + rewrite ids_app, Hki. cbn. now rewrite Hnext.
-    + now rewrite Hnext.
-    + reflexivity.
-    + exact Hst.
+      + exact Hi'.
+      + discriminate.
+      + exact Hmax.
+      + apply Forall_app. split; [exact Hka|repeat constructor].
+      + rewrite ids_app, Hki. cbn. now rewrite Hnext.
+      + now rewrite Hnext.
+      + reflexivity.
+      + exact Hst.
+  }
+  destruct o as [| |k|k|k v| | |]; try (cbn [expand] in H; exact (Hconnect _ _ H));
+    cbn [expand run] in H; unfold step in H; rewrite Hr in H; cbn [negb] in H.
   - (* ClientClose *)
     cbn [negb with_sessions running] in H. rewrite Hr in H. cbn [negb] in H. inversion H; subst. clear H.
     apply rel_intro; unfold remove; cbn [trk running store with_sessions max_sessions next_id sessions served accepted up value];
@@ -559,9 +564,102 @@ Proof. apply trace_refines. apply rel_init. Qed.
 (* the race the Spec does not show: a session that has ended but whose notification has not been
    processed still occupies a slot, so an Accept can evict a running session although fewer than
    max sessions are running *)
-Lemma race_witness :
+Lemma stale_slot_witness :
   exists evs s o, run (init 2) evs = Some (s, o) /\ In (Closed 0) o /\ live_ids (sessions (trk s)) = [2].
 Proof.
   exists [Accept true; Accept true; PeerGone 1; Accept true; SessionEnded 1]. eexists. eexists.
   split; [vm_compute; reflexivity|]. split; [cbn; tauto|reflexivity].
+Qed.
+
+(* ------------------------------------------------------------------ no session is leaked *)
+Lemma run_app s a b : run s (a ++ b) =
+  match run s a with
+  | None => None
+  | Some (s1, o1) => match run s1 b with None => None | Some (s2, o2) => Some (s2, o1 ++ o2) end
+  end.
+Proof.
+  revert s. induction a as [|e r IH]; intros s; cbn [app run].
+  - destruct (run s b) as [[s2 o2]|]; reflexivity.
+  - destruct (step s e) as [[s1 o1]|]; [|reflexivity]. rewrite IH.
+    destruct (run s1 r) as [[s2 o2]|]; [|reflexivity]. destruct (run s2 b) as [[s3 o3]|]; [|reflexivity].
+    now rewrite app_assoc.
+Qed.
+
+(* every session ever spawned is, at any later time, still running, or has been closed by the
+   server (its sender dropped), or has ended on its own *)
+Lemma no_session_leaked m evs : forall s o, run (init m) evs = Some (s, o) ->
+  forall id, In (Spawned id) o -> alive s id = true \/ In (Closed id) o \/ In (PeerGone id) evs.
+Proof.
+  induction evs as [|e evs IH] using rev_ind; intros s o Hrun id Hsp.
+  - cbn in Hrun. inversion Hrun; subst. destruct Hsp.
+  - rewrite run_app in Hrun. destruct (run (init m) evs) as [[s1 o1]|] eqn:E1; [|discriminate].
+    cbn [run] in Hrun. destruct (step s1 e) as [[s2 o2]|] eqn:E2; [|discriminate]. inversion Hrun; subst. clear Hrun.
+    rewrite app_nil_r in *.
+    destruct (run_inv _ _ _ _ (sinv_init m) E1) as [[Hinv Hstop] _].
+    assert (Hold : In (Spawned id) o1 -> alive s id = true \/ In (Closed id) (o1 ++ o2) \/ In (PeerGone id) (evs ++ [e])).
+    { intros Hin. destruct (IH _ _ eq_refl id Hin) as [Ha|[Hc|Hp]].
+      2:{ right. left. apply in_or_app. now left. }
+      2:{ right. right. apply in_or_app. now left. }
+      (* it was running before this step *)
+      assert (Hr : running s1 = true).
+      { destruct (running s1) eqn:E; [reflexivity|]. rewrite alive_iff, (Hstop eq_refl) in Ha. destruct Ha. }
+      destruct (alive s id) eqn:Ha2; [now left|]. right.
+      destruct (isolation m evs s1 o1 e s o2 id E1 E2 Ha Ha2) as [->|[->|[->|[->|(-> & Hlen & Hmin)]]]].
+      - right. apply in_or_app. right. now left.
+      - left. apply in_or_app. right. unfold step in E2. rewrite Hr in E2. cbn [negb] in E2. rewrite Ha in E2. inversion E2; subst. now left.
+      - left. apply in_or_app. right. unfold step in E2. rewrite Hr in E2. cbn [negb] in E2. inversion E2; subst.
+        apply in_or_app. left. apply in_map. unfold alive in Ha. apply existsb_exists in Ha. destruct Ha as (x & Hx & He).
+        apply N.eqb_eq in He. now subst.
+      - left. apply in_or_app. right. unfold step in E2. rewrite Hr in E2. cbn [negb] in E2. inversion E2; subst.
+        apply in_or_app. left. apply in_map. unfold alive in Ha. apply existsb_exists in Ha. destruct Ha as (x & Hx & He).
+        apply N.eqb_eq in He. now subst.
+      - (* evicted: it was the oldest entry and it was running, so closed_of reports it *)
+        left. apply in_or_app. right. unfold step in E2. rewrite Hr in E2. cbn [negb] in E2.
+        destruct (add (trk s1)) as [[[t' nid] ev]|] eqn:Hadd; [|discriminate]. inversion E2; subst. clear E2.
+        assert (Hid : next_id (trk s1) <> u128_max).
+        { intros E. unfold add, get_next_id in Hadd.
+          destruct (if (max_sessions (trk s1) <=? length (sessions (trk s1)))%nat then _ else _) as [ss e0] in Hadd.
+          cbn [next_id] in Hadd. rewrite E, N.eqb_refl in Hadd. discriminate. }
+        destruct (add_spec _ Hinv Hid) as (kept & ev' & Heq & Hc). rewrite Heq in Hadd. inversion Hadd; subst. clear Hadd.
+        rewrite alive_iff in Ha. destruct Hc as [(Hl & -> & _)|(Hl & v & a & E & ->)].
+        + exfalso. assert (Hx : alive {| trk := {| max_sessions := max_sessions (trk s1); next_id := next_id (trk s1) + 1;
+                                                     sessions := sessions (trk s1) ++ [(next_id (trk s1), true)] |};
+                                        running := true; store := store s1 |} id = true).
+          { apply alive_iff. cbn. apply in_or_app. now left. }
+          congruence.
+        + rewrite E in Ha. destruct Ha as [Ha|Ha].
+          * inversion Ha; subst. apply in_or_app. left. cbn. now left.
+          * exfalso. assert (Hx : alive {| trk := {| max_sessions := max_sessions (trk s1); next_id := next_id (trk s1) + 1;
+                                                       sessions := kept ++ [(next_id (trk s1), true)] |};
+                                          running := true; store := store s1 |} id = true).
+            { apply alive_iff. cbn. apply in_or_app. now left. }
+            congruence. }
+    apply in_app_or in Hsp. destruct Hsp as [Hsp|Hsp]; [now apply Hold|].
+    (* spawned by this very step: it is running now *)
+    left. unfold step in E2. destruct (running s1) eqn:Hr; cbn [negb] in E2; [|inversion E2; subst; destruct Hsp].
+    destruct e as [[|]| i | | | | i | i v]; try (inversion E2; subst; cbn in Hsp; repeat (destruct Hsp as [Hsp|Hsp]; try discriminate Hsp); try contradiction; fail).
+    + destruct (add (trk s1)) as [[[t' nid] ev]|] eqn:Hadd; [|discriminate]. inversion E2; subst. clear E2.
+      apply in_app_or in Hsp. destruct Hsp as [Hsp|[Hsp|[]]].
+      { destruct ev as [[? [|]]|]; cbn in Hsp; try contradiction. destruct Hsp as [Hsp|[]]; discriminate. }
+      inversion Hsp; subst.
+      assert (Hid : next_id (trk s1) <> u128_max).
+      { intros E. unfold add, get_next_id in Hadd.
+        destruct (if (max_sessions (trk s1) <=? length (sessions (trk s1)))%nat then _ else _) as [ss e0] in Hadd.
+        cbn [next_id] in Hadd. rewrite E, N.eqb_refl in Hadd. discriminate. }
+      destruct (add_spec _ Hinv Hid) as (kept & ev' & Heq & Hc). rewrite Heq in Hadd. inversion Hadd; subst.
+      apply alive_iff. cbn. apply in_or_app. right. now left.
+    + inversion E2; subst. destruct (alive s1 i); cbn in Hsp; repeat (destruct Hsp as [Hsp|Hsp]; try discriminate Hsp); contradiction.
+    + inversion E2; subst. apply in_map_iff in Hsp. destruct Hsp as (? & ? & _). discriminate.
+    + inversion E2; subst. apply in_app_or in Hsp. destruct Hsp as [Hsp|[Hsp|[]]]; [|discriminate].
+      apply in_map_iff in Hsp. destruct Hsp as (? & ? & _). discriminate.
+    + inversion E2; subst. apply in_app_or in Hsp. destruct Hsp as [Hsp|[Hsp|[]]]; [|discriminate].
+      apply in_map_iff in Hsp. destruct Hsp as (? & ? & _). discriminate.
+    + destruct (alive s1 i); inversion E2; subst; cbn in Hsp; repeat (destruct Hsp as [Hsp|Hsp]; try discriminate Hsp); contradiction.
+Qed.
+
+Lemma all_closed_when_stopped m evs s o : run (init m) evs = Some (s, o) -> running s = false ->
+  forall id, In (Spawned id) o -> In (Closed id) o \/ In (PeerGone id) evs.
+Proof.
+  intros Hrun Hr id Hsp. destruct (no_session_leaked m evs s o Hrun id Hsp) as [Ha|H]; [|exact H].
+  destruct (after_stop m evs s o Hrun Hr) as [_ Hdead]. rewrite Hdead in Ha. discriminate.
 Qed.
